@@ -308,8 +308,8 @@ func (svc *InsertServiceV2) fetchLoopIteration() {
 	stat.AddSentMetrics(svc.serviceType+"_sent_bytes", size)
 
 	svc.lastRequest = time.Now()
-	releaseWaiting(err)
 	svc.vtrace(3, nil, nil, waiting, 0, err)
+	releaseWaiting(err)
 
 	if err != nil {
 		svc.client.Close()
